@@ -269,6 +269,8 @@ def rule_spatial_rejection(ck):
     ck.clause('D5 (shared with C01-D3/D4)')
     c01.rule_sentinel(ck)
     c01.rule_mask_polarity(ck)
+    c01.rule_raw_coordinates(ck)
+    c01.rule_single_edge(ck)
 
 
 PURE = ['get_mag_idx', 'get_spatial_idx', 'spatial_counts', 'spatial_event_probability', 'magnitude_counts', 'spatial_magnitude_counts']
